@@ -137,6 +137,15 @@ def check (spec0):
                     viol.append (dict (monitor = 'far.rows', key = 'far-row-count'
                                       , msg = '%s table: %d rows for %d x %d angles' % (nm, len (rows), ax [0][2], ax [1][2])))
                     break
+            # the caller keeps its two Angle objects and asks again after changing their start, step and number: the
+            # table is the one of the angles the objects describe now (the contract recomputes them from the objects)
+            zen.initial, zen.inc, zen.number = zen.initial + 2.5, zen.inc * 0.5, max (1, min (zen.number + 1, 60))
+            azi.initial, azi.number = azi.initial - 10, max (1, azi.number - 1)
+            common.guarded (lambda: m.compute_far_field (zen, azi), 'compute_far_field')
+            mon ['far.objects-reused'] = 1
+            rows = [x for x in m.far_field.db_as_mininec ().split ('\n') if x.strip ()]
+            if len (rows) != zen.number * azi.number:
+                viol.append (dict (monitor = 'far.objects-reused', key = 'far-row-count', msg = 'Angle objects changed and used again: %d rows for %d x %d angles' % (len (rows), zen.number, azi.number)))
         else:
             start = [a [0] for a in ax]
             inc   = [a [1] for a in ax]
